@@ -53,6 +53,7 @@ CTYPE = {
     "CIterator<u32>": "CIterator<u32>", "CIterator<u64>": "CIterator<u64>", "CIterator<Pair>": "CIterator<Pair>",
     "X": "u32",  # the generic base is instantiated with X = u32
     "Self::Ret": "InnerBox",
+    "&mut InnerBox<'static>": "&mut InnerBox",
 }
 
 
@@ -205,6 +206,14 @@ BASES = [
     ("wrapped", False, Def([simple_trait("Inner", "i0"),
                             Trait("Tr", [Meth("m0", "&self", [], "Self::Ret")],
                                   assoc="#[wrap_with_obj(Inner)] type Ret: Inner + 'static;")], main="Tr")),
+    # a trait whose vtable is reachable only THROUGH another trait's method signature: as a wrapped associated return
+    # type and as an opaque object argument; the edits are made to the inner trait (3 methods, two of them with the
+    # same signature, so that renames and reorders change names only)
+    ("wrapped3", True, Def([Trait("Inner", [Meth("i0", "&self", [], "u32"), Meth("i1", "&self", [], "u32"), Meth("i2", "&self", [("a", "u64")], "u64")]),
+                            Trait("Tr", [Meth("m0", "&self", [], "Self::Ret")],
+                                  assoc="#[wrap_with_obj(Inner)] type Ret: Inner + 'static;")], main="Tr")),
+    ("arg_obj", True, Def([Trait("Inner", [Meth("i0", "&self", [], "u32"), Meth("i1", "&self", [], "u32"), Meth("i2", "&self", [("a", "u64")], "u64")]),
+                           Trait("Tr", [Meth("m0", "&mut self", [("obj", "&mut InnerBox<'static>")], "u32")])], main="Tr")),
     ("super_send", False, one("m0", "&self", [("a", "u64")], "u64", supers="Send")),
     ("grp5", False, Def([simple_trait("Ta", "a0"), simple_trait("Tb", "b0"), simple_trait("Tc", "c0"),
                          simple_trait("Td", "d0"), simple_trait("Te", "e0")],
@@ -348,7 +357,7 @@ def edits_of(d):
         if t.name != d.main:
             # helper trait of a wrapped associated type: its object is the return C type of the main trait
             for (n, k, nd, e, note) in trait_edits(d, t.name, prefix="inner:", kprefix="inner_"):
-                if k[len("inner_"):] in ("rename", "recv", "arg", "ret", "arg_elem", "ret_elem", "add"):
+                if k[len("inner_"):] in ("rename", "recv", "arg", "ret", "arg_elem", "ret_elem", "add", "reorder", "remove"):
                     out.append((n, k, nd, e, note))
     return out
 
